@@ -135,6 +135,13 @@ class Ctx:
     def finish(self):
         os.makedirs(os.path.join(VERIF, "evidence"), exist_ok=True)
         rdir = os.path.join(VERIF, "replays", self.prop)
+        if os.path.isdir(rdir):
+            for old in os.listdir(rdir):
+                if old.endswith(".json"):
+                    try:
+                        os.remove(os.path.join(rdir, old))
+                    except OSError:
+                        pass
         new, known_hit = [], []
         for sig, v in sorted(self.violations.items()):
             if sig in self.known:
